@@ -52,7 +52,8 @@ Qed.
    nL / nR: what RnsToRingLeft / RnsToRingRight return for the node *)
 Record node := mkN { nP : Z; npr : list (Z * Z); nL : Z; nR : Z }.
 Definition dn : node := mkN 0 [] 0 0.
-Definition leaf (pr : Z * Z) : node := mkN (fst pr) [pr] (snd pr) (snd pr).
+(* lr: RnsToRingLeft reduces the residue of a left leaf (read from the source) *)
+Definition leaf (lr : bool) (pr : Z * Z) : node := mkN (fst pr) [pr] (if lr then snd pr mod fst pr else snd pr) (snd pr).
 Definition join (a b : node) : node :=
   let I := (nR b - nL a) * (invmod (nP a) (nP b) * nP a) + nL a in
   mkN (nP a * nP b) (npr a ++ npr b) (I mod (nP a * nP b)) I.
@@ -116,10 +117,11 @@ Qed.
 
 (* ---------------------------------------------------------------- the index-based recursion computes nL / nR *)
 Section Rec.
+  Variable lr : bool.
   Variable prs : list (Z * Z).
   Variable fuel : nat.
   Hypothesis fuel_pos : (0 < fuel)%nat.
-  Let leaves := map leaf prs.
+  Let leaves := map (leaf lr) prs.
   Let levels := node_levels fuel leaves.
   Let t := map F levels.
   Let res := map snd prs.
@@ -130,16 +132,26 @@ Section Rec.
   Lemma nth_nP : forall (lv : list node) i, nth i (map nP lv) 0 = nP (nth i lv dn).
   Proof. intros. change 0 with (nP dn). apply map_nth. Qed.
 
+  Lemma tree_at_0_even : forall i, tree_at t 0 (2 * i) = fst (nth (2 * i) prs (0, 0)).
+  Proof.
+    intros i. unfold tree_at. rewrite nth_t. unfold levels. rewrite node_levels_0 by exact fuel_pos.
+    unfold F. rewrite stored_even. unfold leaves. rewrite map_map. cbn [leaf nP].
+    pose proof (map_nth fst prs (0, 0) (2 * i)) as M. cbn [fst] in M. exact M.
+  Qed.
+
   Lemma rec_nodes : forall k j, (j < length (nth k levels []))%nat ->
-    (Nat.even j = true -> fixed_rec t res true k j = nL (nth j (nth k levels []) dn)) /\
-    fixed_rec t res false k j = nR (nth j (nth k levels []) dn).
+    (Nat.even j = true -> fixed_rec lr t res true k j = nL (nth j (nth k levels []) dn)) /\
+    fixed_rec lr t res false k j = nR (nth j (nth k levels []) dn).
   Proof.
     induction k as [|k IH]; intros j Hj.
-    - unfold levels in *. rewrite node_levels_0 in * by exact fuel_pos. cbn [fixed_rec].
+    - pose proof (tree_at_0_even) as T0.
+      unfold levels in *. rewrite node_levels_0 in * by exact fuel_pos. cbn [fixed_rec].
       unfold leaves in *. rewrite map_length in Hj.
-      rewrite (nth_indep _ dn (leaf (0, 0))) by (rewrite map_length; exact Hj).
+      rewrite (nth_indep _ dn (leaf lr (0, 0))) by (rewrite map_length; exact Hj).
       rewrite map_nth. cbn [leaf nL nR]. unfold res. pose proof (map_nth snd prs (0, 0) j) as M. cbn [snd] in M.
-      rewrite M. auto.
+      rewrite M. split; [|reflexivity].
+      intros Hev. apply Nat.even_spec in Hev. destruct Hev as [i Hi]. rewrite Hi, T0, <- Hi.
+      cbn [andb]. destruct lr; reflexivity.
     - destruct (node_levels_S k fuel leaves) as [E|E]; fold levels in E.
       + rewrite E in Hj. cbn in Hj. lia.
       + rewrite E in *. set (lv := nth k levels []) in *.
@@ -175,7 +187,7 @@ Section Rec.
 
   Lemma odd_levels_nodes : forall sfx base, skipn base levels = sfx ->
     map (fun lc => tree_at t (fst lc) (snd lc)) (fixed_odd_levels (map F sfx) base) = map nP (odd_last sfx) /\
-    map (fun lc => fixed_rec t res true (fst lc) (snd lc)) (fixed_odd_levels (map F sfx) base) = map nL (odd_last sfx).
+    map (fun lc => fixed_rec lr t res true (fst lc) (snd lc)) (fixed_odd_levels (map F sfx) base) = map nL (odd_last sfx).
   Proof.
     induction sfx as [|lv sfx IH]; intros base Hs; [split; reflexivity|].
     destruct (skipn_cons_nth _ _ _ _ _ [] Hs) as [Hn Hs'].
@@ -246,12 +258,14 @@ Definition node_ok (n : node) : Prop :=
   Forall (fun pr => nL n mod fst pr = snd pr mod fst pr) (npr n) /\
   Forall (fun pr => nR n mod fst pr = snd pr mod fst pr) (npr n).
 
-Lemma leaf_ok : forall pr, 0 <= snd pr < fst pr -> node_ok (leaf pr).
+Lemma leaf_ok : forall lr pr, (lr = true /\ 0 < fst pr) \/ 0 <= snd pr < fst pr -> node_ok (leaf lr pr).
 Proof.
-  intros [p r] H. cbn [fst snd] in H. unfold node_ok, leaf. cbn [nP npr nL nR fst snd]. repeat split; try lia.
-  - unfold prodp. cbn. lia.
-  - constructor; [cbn [fst]; lia|constructor].
-  - constructor; [reflexivity|constructor].
+  intros lr [p r] H. cbn [fst snd] in H. unfold node_ok, leaf. cbn [nP npr nL nR fst snd].
+  assert (Hp : 0 < p) by (destruct H as [[_ H]|H]; lia).
+  split; [unfold prodp; cbn; lia|]. split; [constructor; [cbn [fst]; exact Hp|constructor]|].
+  split; [|split].
+  - destruct lr; [apply Z.mod_pos_bound; exact Hp|]. destruct H as [[H _]|H]; [discriminate|exact H].
+  - constructor; [|constructor]. cbn [fst snd]. destruct lr; [apply Z.mod_mod; lia|reflexivity].
   - constructor; [reflexivity|constructor].
 Qed.
 
@@ -355,78 +369,73 @@ Proof.
 Qed.
 
 (* ---------------------------------------------------------------- the whole conversion *)
-Lemma flat_leaves : forall prs, flat (map leaf prs) = prs.
-Proof. induction prs as [|pr prs IH]; [reflexivity|]. cbn [map]. rewrite flat_cons, IH. reflexivity. Qed.
+Lemma flat_leaves : forall lr prs, flat (map (leaf lr) prs) = prs.
+Proof. intros lr. induction prs as [|pr prs IH]; [reflexivity|]. cbn [map]. rewrite flat_cons, IH. reflexivity. Qed.
 
 Lemma map_snd_combine : forall (A B : Type) (a : list A) (b : list B),
   length a = length b -> map snd (combine a b) = b.
 Proof. induction a; destruct b; intros H; try discriminate; cbn; [reflexivity|]. f_equal. apply IHa. cbn in H. lia. Qed.
 
-Lemma fixed_as_nodes : forall prs, prs <> [] ->
-  let E := odd_last (node_levels (length prs) (map leaf prs)) in
-  fixed_RnsToRing (map fst prs) (map snd prs) = RnsToRing_dom (map nP E) (map nL E).
+Definition Enodes (lr : bool) (prs : list (Z * Z)) : list node := odd_last (node_levels (length prs) (map (leaf lr) prs)).
+
+Lemma Enodes_perm : forall lr prs, Permutation prs (flat (Enodes lr prs)).
 Proof.
-  intros prs Hne E.
-  assert (Hf : (0 < length prs)%nat) by (destruct prs; [congruence|cbn; lia]).
-  assert (H : map fst prs = map nP (map leaf prs)) by (rewrite map_map; reflexivity).
-  unfold fixed_RnsToRing, fixed_tree. rewrite map_length. rewrite H, build_tree_nodes.
-  destruct (odd_levels_nodes prs (length prs) Hf _ 0%nat eq_refl) as [O1 O2].
-  cbn [skipn] in O1, O2. cbv zeta. rewrite O1, O2. fold E.
-  destruct (dom_mk_wf (map nP E)) as [W P].
-  change (dom_setPrimes dom_default (map nP E)) with (dom_mk (map nP E)).
-  destruct (dom_RnsToRing_spec (dom_mk (map nP E)) (map nL E) W) as (_ & _ & R). rewrite R, P. reflexivity.
+  intros lr prs. rewrite <- (flat_leaves lr prs) at 1. apply levels_perm. rewrite map_length. lia.
 Qed.
 
-Definition Fixed_tree_stmt : Prop :=
-  forall primes res, primes <> [] -> good_moduli primes -> canonical res primes ->
-  let V := fixed_RnsToRing primes res in
-  0 <= V < prodl primes /\ RingToRns primes V = res /\
-  forall x, 0 <= x < prodl primes -> RingToRns primes x = res -> x = V.
-
-Lemma canonical_combine : forall res primes, canonical res primes ->
-  Forall (fun pr => 0 <= snd pr < fst pr) (combine primes res).
-Proof. induction 1; cbn [combine]; constructor; auto. Qed.
-
-Lemma residues_from_pairs : forall V primes res, length res = length primes ->
-  Forall (fun pr => V mod fst pr = snd pr) (combine primes res) -> RingToRns primes V = res.
+Lemma Enodes_nonempty : forall lr prs, prs <> [] -> Enodes lr prs <> [].
 Proof.
-  intros V. induction primes as [|p ps IH]; intros [|r rs] Hl H; try discriminate; [reflexivity|].
-  cbn [combine] in H. inversion H; subst. cbn [RingToRns map fst snd] in *. f_equal; [assumption|].
-  apply IH; [cbn in Hl; lia|assumption].
+  intros lr prs Hne E0. pose proof (Enodes_perm lr prs) as Hp. rewrite E0 in Hp.
+  apply Permutation_sym, Permutation_nil in Hp. contradiction.
+Qed.
+
+Lemma fixed_as_nodes : forall lr prs, prs <> [] ->
+  fixed_RnsToRing lr (map fst prs) (map snd prs) =
+  Some (RnsToRing_dom (map nP (Enodes lr prs)) (map nL (Enodes lr prs))).
+Proof.
+  intros lr prs Hne. set (E := Enodes lr prs).
+  assert (Hf : (0 < length prs)%nat) by (destruct prs; [congruence|cbn; lia]).
+  assert (H : map fst prs = map nP (map (leaf lr) prs)) by (rewrite map_map; reflexivity).
+  unfold fixed_RnsToRing, fixed_tree, fixed_mods, fixed_reds.
+  assert (Hn1 : map fst prs <> []) by (destruct prs; [congruence|discriminate]).
+  assert (Hn2 : length (map snd prs) = length (map fst prs)) by (rewrite !map_length; reflexivity).
+  rewrite (enough_same_length (map fst prs) (map snd prs) Hn1 Hn2).
+  rewrite map_length. rewrite H, build_tree_nodes.
+  destruct (odd_levels_nodes lr prs (length prs) Hf _ 0%nat eq_refl) as [O1 O2].
+  cbn [skipn] in O1, O2. rewrite O1, O2. fold (Enodes lr prs). fold E.
+  destruct (dom_mk_wf (map nP E)) as [W P].
+  destruct (dom_RnsToRing_spec (dom_mk (map nP E)) (map nL E) W) as (_ & _ & R). rewrite R, P.
+  rewrite enough_same_length; [reflexivity| |rewrite !map_length; reflexivity].
+  intro E0. apply map_eq_nil in E0. exact (Enodes_nonempty lr prs Hne E0).
 Qed.
 
 Lemma Forall2_maps : forall (A : Type) (R : Z -> Z -> Prop) (f g : A -> Z) l,
   Forall2 R (map f l) (map g l) -> Forall (fun x => R (f x) (g x)) l.
 Proof. induction l; intros H; cbn [map] in H; inversion H; subst; constructor; auto. Qed.
 
-Theorem fixed_tree_correct : Fixed_tree_stmt.
+(* the common core: for either body, as soon as the leaves satisfy the node invariant *)
+Lemma fixed_tree_general : forall lr prs, prs <> [] -> good_moduli (map fst prs) ->
+  Forall (fun pr => (lr = true /\ 0 < fst pr) \/ 0 <= snd pr < fst pr) prs ->
+  exists V, fixed_RnsToRing lr (map fst prs) (map snd prs) = Some V /\
+  0 <= V < prodl (map fst prs) /\ Forall (fun pr => V mod fst pr = snd pr mod fst pr) prs.
 Proof.
-  intros primes res Hne [Hpos Hcop] Hcan V.
-  pose proof (canonical_length _ _ Hcan) as Hlen.
-  set (prs := combine primes res).
-  assert (Efst : map fst prs = primes) by (apply map_fst_combine; symmetry; exact Hlen).
-  assert (Esnd : map snd prs = res) by (apply map_snd_combine; symmetry; exact Hlen).
-  assert (Hprs : prs <> []).
-  { intro E. rewrite E in Efst. cbn in Efst. congruence. }
-  pose proof (fixed_as_nodes prs Hprs) as HV. cbv zeta in HV. rewrite Efst, Esnd in HV. fold V in HV.
-  set (levels := node_levels (length prs) (map leaf prs)) in *. set (E := odd_last levels) in *.
-  (* the leaves, hence all levels, hence the nodes handed to the inner system, satisfy the invariants *)
-  assert (Hcanp : Forall (fun pr => 0 <= snd pr < fst pr) prs) by (apply canonical_combine; exact Hcan).
-  assert (Hleaves : level_ok (map leaf prs)).
+  intros lr prs Hprs [Hpos Hcop] Hleaf.
+  rewrite (fixed_as_nodes lr prs Hprs). set (E := Enodes lr prs) in *.
+  exists (RnsToRing_dom (map nP E) (map nL E)). split; [reflexivity|]. set (V := RnsToRing_dom (map nP E) (map nL E)).
+  set (primes := map fst prs) in *.
+  assert (Hleaves : level_ok (map (leaf lr) prs)).
   { split.
     - apply Forall_forall. intros n Hn. apply in_map_iff in Hn. destruct Hn as [pr [<- Hin]].
-      apply leaf_ok. rewrite Forall_forall in Hcanp. apply Hcanp. exact Hin.
-    - rewrite flat_leaves, Efst. exact Hcop. }
+      apply leaf_ok. rewrite Forall_forall in Hleaf. apply Hleaf. exact Hin.
+    - rewrite flat_leaves. exact Hcop. }
   assert (HE : Forall node_ok E) by (apply odd_last_ok, node_levels_ok, Hleaves).
-  assert (Hperm : Permutation prs (flat E)).
-  { rewrite <- (flat_leaves prs) at 1. apply levels_perm. rewrite map_length. lia. }
+  pose proof (Enodes_perm lr prs) as Hperm. fold E in Hperm.
   assert (Hblocks : map nP E = map prodl (map (fun n => map fst (npr n)) E)).
   { rewrite map_map. apply map_ext_in. intros n Hn. rewrite Forall_forall in HE. apply nP_prodl, HE, Hn. }
   assert (Hflat : map fst (flat E) = concat (map (fun n => map fst (npr n)) E)).
   { unfold flat. rewrite concat_map, map_map. reflexivity. }
-  assert (Hpermf : Permutation primes (map fst (flat E))) by (rewrite <- Efst; apply Permutation_map; exact Hperm).
-  assert (HEne : E <> []).
-  { intro E0. rewrite E0 in Hperm. apply Permutation_sym, Permutation_nil in Hperm. contradiction. }
+  assert (Hpermf : Permutation primes (map fst (flat E))) by (apply Permutation_map; exact Hperm).
+  assert (HEne : E <> []) by (apply Enodes_nonempty; exact Hprs).
   assert (Hgood : good_moduli (map nP E)).
   { split.
     - apply Forall_forall. intros q Hq. apply in_map_iff in Hq. destruct Hq as [n [<- Hn]].
@@ -441,28 +450,199 @@ Proof.
   - exact Hgood.
   - rewrite !map_length. reflexivity.
   - exact Hhd.
-  - fold (RnsToRing_dom (map nP E) (map nL E)) in Hrange, Hres. rewrite <- HV in Hrange, Hres.
-    rewrite Hprod in Hrange.
+  - fold (RnsToRing_dom (map nP E) (map nL E)) in Hrange, Hres. fold V in Hrange, Hres.
+    rewrite Hprod in Hrange. split; [exact Hrange|].
     assert (Hnodes : Forall (fun n => V mod nP n = nL n mod nP n) E) by (apply Forall2_maps in Hres; exact Hres).
-    assert (Hall : Forall (fun pr => V mod fst pr = snd pr) prs).
-    { apply Forall_forall. intros pr Hin.
-      assert (Hin' : In pr (flat E)) by (eapply Permutation_in; eassumption).
-      unfold flat in Hin'. apply in_concat in Hin'. destruct Hin' as [blk [Hb Hpr]].
-      apply in_map_iff in Hb. destruct Hb as [n [<- Hn]].
-      rewrite Forall_forall in HE, Hnodes, Hcanp.
-      destruct (HE n Hn) as (Pn & Posn & Ln & CLn & _). specialize (Hnodes n Hn). specialize (Hcanp pr Hin).
-      rewrite Forall_forall in CLn, Posn. specialize (CLn pr Hpr). specialize (Posn pr Hpr).
-      assert (Hd : (fst pr | nP n)) by (rewrite Pn; apply prodl_divide, in_map, Hpr).
-      rewrite (Zmod_div_mod (fst pr) (nP n) V Posn ltac:(lia) Hd), Hnodes.
-      rewrite <- (Zmod_div_mod (fst pr) (nP n) (nL n) Posn ltac:(lia) Hd), CLn.
-      apply Z.mod_small. exact Hcanp. }
-    assert (Hrr : RingToRns primes V = res) by (apply residues_from_pairs; assumption).
-    split; [exact Hrange|]. split; [exact Hrr|].
-    intros x Hx Hxr. apply (unique primes); auto; [split; assumption|].
-    apply RingToRns_eq_Forall. congruence.
+    apply Forall_forall. intros pr Hin.
+    assert (Hin' : In pr (flat E)) by (eapply Permutation_in; eassumption).
+    unfold flat in Hin'. apply in_concat in Hin'. destruct Hin' as [blk [Hb Hpr]].
+    apply in_map_iff in Hb. destruct Hb as [n [<- Hn]].
+    rewrite Forall_forall in HE, Hnodes.
+    destruct (HE n Hn) as (Pn & Posn & Ln & CLn & _). specialize (Hnodes n Hn).
+    rewrite Forall_forall in CLn, Posn. specialize (CLn pr Hpr). specialize (Posn pr Hpr).
+    assert (Hd : (fst pr | nP n)) by (rewrite Pn; apply prodl_divide, in_map, Hpr).
+    rewrite (Zmod_div_mod (fst pr) (nP n) V Posn ltac:(lia) Hd), Hnodes.
+    rewrite <- (Zmod_div_mod (fst pr) (nP n) (nL n) Posn ltac:(lia) Hd). exact CLn.
 Qed.
+
+(* the body before the repair (a left leaf returns the residue as it comes): canonical residues *)
+Definition Fixed_tree_stmt : Prop :=
+  forall primes res, primes <> [] -> good_moduli primes -> canonical res primes ->
+  exists V, fixed_RnsToRing false primes res = Some V /\
+  0 <= V < prodl primes /\ RingToRns primes V = res /\
+  forall x, 0 <= x < prodl primes -> RingToRns primes x = res -> x = V.
+(* the repaired body (a left leaf is reduced): ANY representatives as residues *)
+Definition Fixed_tree_any_stmt (lr : bool) : Prop :=
+  forall primes res, primes <> [] -> good_moduli primes -> length res = length primes ->
+  exists V, fixed_RnsToRing lr primes res = Some V /\
+  0 <= V < prodl primes /\ Forall2 (fun p r => V mod p = r mod p) primes res /\
+  forall x, 0 <= x < prodl primes -> Forall2 (fun p r => x mod p = r mod p) primes res -> x = V.
+
+Lemma canonical_combine : forall res primes, canonical res primes ->
+  Forall (fun pr => 0 <= snd pr < fst pr) (combine primes res).
+Proof. induction 1; cbn [combine]; constructor; auto. Qed.
+
+Lemma residues_from_pairs : forall V primes res, length res = length primes ->
+  Forall (fun pr => V mod fst pr = snd pr) (combine primes res) -> RingToRns primes V = res.
+Proof.
+  intros V. induction primes as [|p ps IH]; intros [|r rs] Hl H; try discriminate; [reflexivity|].
+  cbn [combine] in H. inversion H; subst. cbn [RingToRns map fst snd] in *. f_equal; [assumption|].
+  apply IH; [cbn in Hl; lia|assumption].
+Qed.
+
+Lemma pairs_setup : forall (primes res : list Z), primes <> [] -> length res = length primes ->
+  let prs := combine primes res in map fst prs = primes /\ map snd prs = res /\ prs <> [].
+Proof.
+  intros primes res Hne Hl prs.
+  assert (E1 : map fst prs = primes) by (apply map_fst_combine; symmetry; exact Hl).
+  split; [exact E1|]. split; [apply map_snd_combine; symmetry; exact Hl|].
+  intro E. rewrite E in E1. cbn in E1. congruence.
+Qed.
+
+Theorem fixed_tree_correct : Fixed_tree_stmt.
+Proof.
+  intros primes res Hne Hg Hcan.
+  pose proof (canonical_length _ _ Hcan) as Hlen.
+  destruct (pairs_setup primes res Hne Hlen) as (Efst & Esnd & Hprs). set (prs := combine primes res) in *.
+  assert (Hcanp : Forall (fun pr => 0 <= snd pr < fst pr) prs) by (apply canonical_combine; exact Hcan).
+  destruct (fixed_tree_general false prs Hprs) as (V & EV & Hr & Hc).
+  - rewrite Efst. exact Hg.
+  - eapply Forall_impl; [|exact Hcanp]. intros pr H. right. exact H.
+  - rewrite Efst, Esnd in EV. rewrite Efst in Hr. exists V. split; [exact EV|]. split; [exact Hr|].
+    assert (Hrr : RingToRns primes V = res).
+    { apply residues_from_pairs; [exact Hlen|]. fold prs. rewrite Forall_forall in *. intros pr Hin.
+      rewrite (Hc pr Hin). apply Z.mod_small. apply Hcanp. exact Hin. }
+    split; [exact Hrr|].
+    intros x Hx Hxr. apply (unique primes); auto. apply RingToRns_eq_Forall. congruence.
+Qed.
+
+Lemma pairs_Forall2 : forall V primes res, length res = length primes ->
+  Forall (fun pr => V mod fst pr = snd pr mod fst pr) (combine primes res) ->
+  Forall2 (fun p r => V mod p = r mod p) primes res.
+Proof. intros V primes res Hl H. apply Forall_combine_Forall2; [symmetry; exact Hl|exact H]. Qed.
+
+Theorem fixed_tree_any : Fixed_tree_any_stmt true.
+Proof.
+  intros primes res Hne Hg Hlen.
+  destruct (pairs_setup primes res Hne Hlen) as (Efst & Esnd & Hprs). set (prs := combine primes res) in *.
+  destruct (fixed_tree_general true prs Hprs) as (V & EV & Hr & Hc).
+  - rewrite Efst. exact Hg.
+  - destruct Hg as [Hpos _]. rewrite <- Efst in Hpos. apply Forall_forall. intros pr Hin. left. split; [reflexivity|].
+    unfold allpos in Hpos. rewrite Forall_forall in Hpos. apply Hpos. apply in_map. exact Hin.
+  - rewrite Efst, Esnd in EV. rewrite Efst in Hr. exists V. split; [exact EV|]. split; [exact Hr|].
+    assert (HF : Forall2 (fun p r => V mod p = r mod p) primes res) by (apply pairs_Forall2; assumption).
+    split; [exact HF|].
+    intros x Hx Hxr. apply (unique primes); auto. eapply Forall2_cong_Forall; eassumption.
+Qed.
+
+(* without the reduction of the left leaf the unrestricted statement is false: one prime 7, residue 10 *)
+Lemma fixed_tree_any_unreduced_refuted : ~ Fixed_tree_any_stmt false.
+Proof.
+  intro H. destruct (H [7] [10]) as (V & E & [_ R] & _); [discriminate| |reflexivity|].
+  - split; repeat constructor; lia.
+  - vm_compute in E. inversion E; subst. vm_compute in R. discriminate R.
+Qed.
+
+(* ---------------------------------------------------------------- RNSsystemFixed objects: constructors, copy, assignment, use *)
+Definition fmembers_all : list fmember := [FMtree; FMrns].
+Definition fsrc_repo (lr : bool) : fsrc := mkFsrc fmembers_all fmembers_all lr dsrc_repo.
+
+Inductive fexp : Type :=
+  | Fmk (ps : list Z)                 (* RNSsystemFixed(const array&) *)
+  | Fdefault                          (* RNSsystemFixed() *)
+  | Fcopy (e : fexp)                  (* RNSsystemFixed(const Self_t&) : member by member *)
+  | Fassign (dst src : fexp)          (* implicit operator= : member by member, onto ANY earlier object *)
+  | Fuse (e : fexp) (rs : list Z).    (* the object after RnsToRing(rs) (the inner _RNS is not const) *)
+Fixpoint feval (fs : fsrc) (e : fexp) : FixRNS :=
+  match e with
+  | Fmk ps => fix_mk fs ps
+  | Fdefault => fix_default
+  | Fcopy e => fix_copy fs (feval fs e)
+  | Fassign d s => fix_assign fs (feval fs d) (feval fs s)
+  | Fuse e rs => fst (fix_RnsToRing fs (feval fs e) rs)
+  end.
+Fixpoint fprimes (e : fexp) : list Z :=
+  match e with
+  | Fmk ps => ps
+  | Fdefault => []
+  | Fcopy e => fprimes e
+  | Fassign d s => fprimes s
+  | Fuse e _ => fprimes e
+  end.
+
+Definition fix_spec (ps : list Z) : FixRNS := mkFixRNS (fixed_tree ps) (dom_mk (fixed_mods (fixed_tree ps))).
+
+Lemma dom_ensure_ck_id : forall S, dom_wf S -> dom_ensure_ck S = S.
+Proof.
+  intros [p c] H. unfold dom_wf in H. cbn [d_ck d_primes] in H. unfold dom_ensure_ck. cbn [d_ck d_primes].
+  destruct c; [rewrite <- H|]; reflexivity.
+Qed.
+
+Lemma feval_spec : forall lr e, feval (fsrc_repo lr) e = fix_spec (fprimes e).
+Proof.
+  intros lr. induction e as [ps| |e IH|d IHd s IHs|e IH rs]; cbn [feval fprimes].
+  - unfold fix_mk, fix_spec. cbn [fsrc_repo fs_dom dsrc_repo ds_set]. rewrite dom_setPrimes_repo. reflexivity.
+  - reflexivity.
+  - rewrite IH. unfold fix_copy, fix_spec. cbn [fsrc_repo fs_copy fs_dom dsrc_repo ds_copy fmembers_all fmem existsb fmember_eqb orb f_tree f_rns].
+    rewrite dom_copy_all. reflexivity.
+  - rewrite IHd, IHs. unfold fix_assign, fix_spec. cbn [fsrc_repo fs_assign fs_dom dsrc_repo ds_assign fmembers_all fmem existsb fmember_eqb orb f_tree f_rns].
+    rewrite dom_assign_all. reflexivity.
+  - rewrite IH. unfold fix_RnsToRing, fix_spec. cbn [f_tree f_rns].
+    destruct (dom_mk_wf (fixed_mods (fixed_tree (fprimes e)))) as [W _].
+    unfold dom_RnsToRing, dom_RnsToMixedRadix. rewrite (dom_ensure_ck_id _ W). cbn [fst]. reflexivity.
+Qed.
+
+(* every answer of an RNSsystemFixed object is that of the conversion function of its primes (fixed_RnsToRing, to which
+   C14_fixed_tree / C14_fixed_tree_any_residues apply), whatever constructors, copies, assignments and earlier
+   conversions produced it *)
+Definition Fix_history_stmt (fs : fsrc) : Prop :=
+  forall (e : fexp) (rs : list Z),
+  snd (fix_RnsToRing fs (feval fs e) rs) = fixed_RnsToRing (fs_leaf fs) (fprimes e) rs.
+
+Lemma fixed_tree_level0 : forall ps rs, enough (nth 0 (fixed_tree ps) []) rs = enough ps rs.
+Proof.
+  intros [|p ps] rs; [reflexivity|]. unfold fixed_tree. cbn [length build_tree].
+  destruct (pair_level (p :: ps)) as [nx cur] eqn:E. cbn [nth].
+  assert (L : length cur = length (p :: ps)) by (change cur with (snd (nx, cur)); rewrite <- E; apply stored_length).
+  unfold enough. destruct cur as [|c cur]; [discriminate L|]. rewrite L. reflexivity.
+Qed.
+
+Lemma fix_history : forall lr, Fix_history_stmt (fsrc_repo lr).
+Proof.
+  intros lr e rs. rewrite feval_spec. unfold fix_RnsToRing, fix_spec, fixed_RnsToRing. cbn [f_tree f_rns fsrc_repo fs_leaf].
+  set (t := fixed_tree (fprimes e)).
+  destruct (dom_RnsToRing (dom_mk (fixed_mods t)) (fixed_reds lr t rs)) as [R' v] eqn:E. cbn [snd].
+  destruct (dom_mk_wf (fixed_mods t)) as [_ P]. rewrite P.
+  unfold t at 1. rewrite fixed_tree_level0.
+  unfold fixed_mods, fixed_reds. rewrite !map_length, Nat.eqb_refl, andb_true_r. reflexivity.
+Qed.
+
+(* history: the copy constructor before 380857a did not copy _RNS (it did not even compile); a copy that drops the inner
+   system has no defined conversion *)
+Lemma fix_history_copy_without_rns_refuted : ~ Fix_history_stmt (mkFsrc [FMtree] fmembers_all false dsrc_repo).
+Proof.
+  intro H. specialize (H (Fcopy (Fmk [3; 5; 7])) [1; 2; 3]). vm_compute in H. discriminate H.
+Qed.
+
+Definition fhexp (h : fhist) (primes other : list Z) : fexp :=
+  let use ps e := Fuse e (repeat 1 (length ps)) in
+  match h with
+  | FHfresh => Fmk primes
+  | FHreuse => use primes (Fmk primes)
+  | FHassigncold => Fassign Fdefault (Fmk primes)
+  | FHassignwarm => Fassign (use other (Fmk other)) (use primes (Fmk primes))
+  | FHassigncc => Fassign (use other (Fmk other)) (Fmk primes)
+  | FHcopycold => Fcopy (Fmk primes)
+  | FHcopywarm => Fcopy (use primes (Fmk primes))
+  | FHcopy2 => Fcopy (Fcopy (use primes (Fmk primes)))
+  | FHcopyassign => Fassign Fdefault (Fcopy (Fmk primes))
+  end.
+Lemma fix_obtain_fhexp : forall fs h primes other, fix_obtain fs h primes other = feval fs (fhexp h primes other).
+Proof. intros fs h primes other. destruct h; reflexivity. Qed.
 
 Example fixed_tree_hyps : good_moduli [7; 10; 9; 11; 13] /\ canonical [6; 0; 8; 3; 12] [7; 10; 9; 11; 13].
 Proof. split; [split|]; repeat constructor; try lia; reflexivity. Qed.
-Example fixed_tree_example : fixed_RnsToRing [7; 10; 9; 11; 13] [6; 0; 8; 3; 12] = 56510.
+Example fixed_tree_example : fixed_RnsToRing false [7; 10; 9; 11; 13] [6; 0; 8; 3; 12] = Some 56510.
+Proof. vm_compute. reflexivity. Qed.
+Example fixed_tree_any_example : fixed_RnsToRing true [7; 10; 9; 11; 13] [-1; 20; -1; 14; 25] = Some 56510.
 Proof. vm_compute. reflexivity. Qed.
